@@ -345,7 +345,7 @@ pub fn run(rep: &mut StageReport, tier: &str, seed: u64) {
     let mut rng = Rng::new(seed ^ 0xC04);
     let mut scenarios = vec![];
     let comps = [None, Some("zstd"), Some("gzip"), Some("lz4"), Some("brotli-generic")];
-    let n_sc = if thorough { 60 } else { 5 };
+    let n_sc = if thorough { 60 } else { 10 };
     for i in 0..n_sc {
         scenarios.push(Scenario {
             id: i as u64 + 1,
@@ -357,7 +357,7 @@ pub fn run(rep: &mut StageReport, tier: &str, seed: u64) {
             timeout_ms: *rng.pick(&[250u64, 400]),
         });
     }
-    let (n_gen_scenarios, gens_per) = if thorough { (12usize, 40usize) } else { (2usize, 10usize) };
+    let (n_gen_scenarios, gens_per) = if thorough { (12usize, 40usize) } else { (3usize, 12usize) };
     let mark = panic_mark();
     let mut total_calls = 0u64;
     let mut prompt_timeouts = 0u64;
